@@ -13,9 +13,9 @@ use std::collections::BTreeMap;
 pub const SPEC: PropSpec = PropSpec {
     id: "C20",
     level: "exploration",
-    rule: "Cases = (value of one of 6 struct shapes with list fields: two lists; three lists; lists + scalar + optional field; list items that are structs containing a child named like an outer list; a $value enum list next to a named list; nested struct with its own lists, order-preserving interleaving of the child elements of its contiguous serialization, event buffer limit). Exhaustive: for generated values with at most 3+3+2 list items ALL order-preserving interleavings (multinomial, sampled down to 600 when more than 2000) x every limit 1..=total child events+2 and no limit; random interleavings for sizes up to 10+10+10. Oracle: without a limit the result must be Ok(original value) (string and reader entry points); with a limit L the result must be Ok(original value) or Err(TooManyEvents); if B > L the result must not be Ok, where B = number of deserializer events (Start, End, Text; an empty element counts 2) of the siblings that do not belong to the first list met in document order and stand behind that list's first item; success at L implies success at every L' > L. Non-trivial = the interleaving is not the contiguous one (B > 0).",
+    rule: "Cases = (value of one of 7 struct shapes with list fields: two lists; three lists; lists + scalar + optional field; list items that are structs containing a child named like an outer list; list items that are structs with two lists of their own; a $value enum list next to a named list; nested struct with its own lists, order-preserving interleaving of the child elements of its contiguous serialization, event buffer limit). Exhaustive: for generated values with at most 3+3+2 list items ALL order-preserving interleavings (multinomial, sampled down to 600 when more than 2000) x every limit 1..=total child events+2 and no limit; random interleavings for sizes up to 10+10+10; two-level random interleavings (the children of nested struct items are interleaved as well). Oracle: without a limit the result must be Ok(original value) (string and reader entry points); with a limit L the result must be Ok(original value) or Err(TooManyEvents); if B > L the result must not be Ok, where B = number of deserializer events (Start, End, Text; an empty element counts 2) of the siblings that do not belong to the first list met in document order and stand behind that list's first item; success at L implies success at every L' > L. Non-trivial = the interleaving is not the contiguous one (B > 0).",
     assumptions: &["B is a lower bound of what has to be buffered (documentation of the overlapped-lists feature: all events up to the end of the container are inspected); list items that are structs with own lists may need more, which the monitor does not demand", "the serializer output never contains comments/CDATA, so one text token is one deserializer event"],
-    required: &["interleavings", "shapes_seen_all6", "outcome.ok", "outcome.too_many_events", "monotonicity_pairs", "tight.zero_slack", "max.B", "reader_entry"],
+    required: &["interleavings", "shapes_seen_all7", "outcome.ok", "outcome.too_many_events", "monotonicity_pairs", "tight.zero_slack", "max.B", "reader_entry", "two_level_values"],
     run,
     replay,
     thorough_layers: &[],
@@ -25,7 +25,7 @@ pub const SPEC: PropSpec = PropSpec {
 
 fn post(c: &mut BTreeMap<String, u64>) {
     let n = c.iter().filter(|(k, v)| k.starts_with("shape.") && **v > 0).count() as u64;
-    c.insert("shapes_seen_all6".into(), (n >= 6) as u64);
+    c.insert("shapes_seen_all7".into(), (n >= 7) as u64);
 }
 
 #[derive(Default)]
@@ -38,6 +38,7 @@ struct Local {
     slack: BTreeMap<u64, u64>,
     max_b: u64,
     reader: u64,
+    deep: u64,
 }
 
 #[derive(Clone, Debug)]
@@ -135,6 +136,8 @@ fn groups_for(shape: &str) -> Box<dyn Fn(&str) -> (usize, bool)> {
         (_, "t_b") => (1, true),
         (_, "t_c") => (2, true),
         (_, "s_item") => (3, true),
+        (_, "s_item2") => (8, true),
+        (_, "t_d") => (10, true),
         (_, "t_one") => (4, false),
         (_, "t_opt") => (5, false),
         (_, "s_ovl2") => (6, false),
@@ -230,6 +233,59 @@ fn interleavings(children: &[(Child, bool)], cap: usize, r: &mut Rng) -> (Vec<Ve
     }
 }
 
+/// random order-preserving merge of children grouped by `key`
+fn random_merge(keys: &[usize], r: &mut Rng) -> Vec<usize> {
+    let mut groups: BTreeMap<usize, Vec<usize>> = BTreeMap::new();
+    for (i, k) in keys.iter().enumerate() {
+        groups.entry(*k).or_default().push(i);
+    }
+    let gs: Vec<Vec<usize>> = groups.into_values().collect();
+    let mut pos = vec![0usize; gs.len()];
+    let total = keys.len();
+    let mut out = Vec::with_capacity(total);
+    while out.len() < total {
+        let remaining: usize = gs.iter().zip(&pos).map(|(g, p)| g.len() - p).sum();
+        let mut k = r.below(remaining);
+        for g in 0..gs.len() {
+            let left = gs[g].len() - pos[g];
+            if k < left {
+                out.push(gs[g][pos[g]]);
+                pos[g] += 1;
+                break;
+            }
+            k -= left;
+        }
+    }
+    out
+}
+
+/// interleaves the children of every nested `s_*` element of `xml` (recursively), keeping the
+/// relative order of same-named children
+pub fn shuffle_inner(xml: &str, r: &mut Rng, depth: usize) -> String {
+    let by_name = |name: &str| -> (usize, bool) {
+        let mut h = 0usize;
+        for b in name.bytes() {
+            h = h.wrapping_mul(31).wrapping_add(b as usize);
+        }
+        (h, true)
+    };
+    let (open, children, close) = match split_children(xml, &by_name) {
+        Some(x) => x,
+        None => return xml.to_string(),
+    };
+    if children.is_empty() {
+        return xml.to_string();
+    }
+    let rebuilt: Vec<String> = children.iter().map(|(c, _)| if c.bytes.starts_with("<s_") && depth < 4 { shuffle_inner(&c.bytes, r, depth + 1) } else { c.bytes.clone() }).collect();
+    let order = if depth == 0 { (0..children.len()).collect::<Vec<_>>() } else { random_merge(&children.iter().map(|(c, _)| c.group).collect::<Vec<_>>(), r) };
+    let mut s = String::from(open);
+    for i in order {
+        s.push_str(&rebuilt[i]);
+    }
+    s.push_str(&close);
+    s
+}
+
 fn build(open: &str, children: &[(Child, bool)], order: &[usize], close: &str) -> String {
     let mut s = String::with_capacity(open.len() + close.len() + children.iter().map(|c| c.0.bytes.len()).sum::<usize>());
     s.push_str(open);
@@ -297,11 +353,19 @@ fn check_order(ops: &TypeOps, v: &dyn Val, doc: &str, b: u64, total_events: u64,
     Ok(())
 }
 
-fn run_value(ctx: &mut Ctx, loc: &mut Local, ops: &TypeOps, gen: fn(&mut Rng, usize) -> Box<dyn Val>, vseed: u64, max: usize, exhaustive: bool, r: &mut Rng) -> bool {
+fn run_value(ctx: &mut Ctx, loc: &mut Local, ops: &TypeOps, gen: fn(&mut Rng, usize) -> Box<dyn Val>, vseed: u64, max: usize, exhaustive: bool, deep_seed: Option<u64>, r: &mut Rng) -> bool {
     let v = gen(&mut Rng::new(vseed), max);
     let xml = match v.ser(&SerCfg::plain()) {
         Ok(x) => x,
         Err(_) => return true,
+    };
+    // two-level interleaving: first interleave the children of nested struct items
+    let xml = match deep_seed {
+        Some(s) => {
+            loc.deep += 1;
+            shuffle_inner(&xml, &mut Rng::new(s), 0)
+        }
+        None => xml,
     };
     let (open, children, close) = match split_children(&xml, &*groups_for(ops.name)) {
         Some(x) => x,
@@ -324,7 +388,7 @@ fn run_value(ctx: &mut Ctx, loc: &mut Local, ops: &TypeOps, gen: fn(&mut Rng, us
         let b = lower_bound(order, &children);
         loc.max_b = loc.max_b.max(b);
         loc.interleavings += 1;
-        let case = json!({"shape": ops.name, "value_seed": vseed, "max": max, "order": order, "document": doc});
+        let case = json!({"shape": ops.name, "value_seed": vseed, "max": max, "deep_seed": deep_seed, "order": order, "document": doc});
         ctx.journal(|| case.clone());
         ctx.eval(H::new().str(&doc).finish(), b > 0);
         let res = guarded(|| check_order(ops, v.as_ref(), &doc, b, total_events, exhaustive && complete, loc, r));
@@ -363,7 +427,7 @@ fn run(ctx: &mut Ctx) {
     'outer: for _ in 0..n {
         for (ops, gen) in &shapes {
             let vseed = r.next();
-            if !run_value(ctx, &mut loc, ops, *gen, vseed, 3, true, &mut r) {
+            if !run_value(ctx, &mut loc, ops, *gen, vseed, 3, true, None, &mut r) {
                 break 'outer;
             }
         }
@@ -374,12 +438,28 @@ fn run(ctx: &mut Ctx) {
         for (ops, gen) in &shapes {
             let vseed = r.next();
             let max = 4 + r.below(7);
-            if !run_value(ctx, &mut loc, ops, *gen, vseed, max, false, &mut r) {
+            if !run_value(ctx, &mut loc, ops, *gen, vseed, max, false, None, &mut r) {
                 break 'outer2;
             }
         }
     }
+    // two-level interleavings for the shapes with nested struct items
+    let n = ctx.scaled(t.pick(6_000, 60_000)) / ctx.nshards as u64 + 1;
+    'outer3: for _ in 0..n {
+        for (ops, gen) in &shapes {
+            if !matches!(ops.name, "OvlSame" | "OvlDeep" | "OvlNested") {
+                continue;
+            }
+            let vseed = r.next();
+            let ds = r.next();
+            let max = 2 + r.below(4);
+            if !run_value(ctx, &mut loc, ops, *gen, vseed, max, false, Some(ds), &mut r) {
+                break 'outer3;
+            }
+        }
+    }
     ctx.add("interleavings", loc.interleavings);
+    ctx.add("two_level_values", loc.deep);
     for (k, v) in &loc.shapes {
         ctx.add(&format!("shape.{}", k), *v);
     }
@@ -398,7 +478,10 @@ fn replay(case: &Value, _ctx: &mut Ctx) -> Option<String> {
     let shapes = ovl_family();
     let (ops, gen) = shapes.iter().find(|(o, _)| o.name == case["shape"].as_str().unwrap_or(""))?;
     let v = gen(&mut Rng::new(case["value_seed"].as_u64().unwrap_or(0)), case["max"].as_u64().unwrap_or(3) as usize);
-    let xml = v.ser(&SerCfg::plain()).ok()?;
+    let mut xml = v.ser(&SerCfg::plain()).ok()?;
+    if let Some(ds) = case["deep_seed"].as_u64() {
+        xml = shuffle_inner(&xml, &mut Rng::new(ds), 0);
+    }
     let (open, children, close) = split_children(&xml, &*groups_for(ops.name))?;
     let order: Vec<usize> = case["order"].as_array()?.iter().map(|x| x.as_u64().unwrap_or(0) as usize).collect();
     if order.iter().any(|i| *i >= children.len()) {
